@@ -376,7 +376,7 @@ func fanout(st *staged, prop string, seed uint64, thorough bool, workers, random
 		wg.Add(1)
 		go func(w int) {
 			defer wg.Done()
-			job := driver.WorkerIn{Prop: prop, Mode: "run", Seed: seed, Thorough: thorough, Worker: w, Workers: workers, Random: random, RawLib: rawMode, Known: knownSigs,
+			job := driver.WorkerIn{Prop: prop, Mode: "run", Seed: seed, Thorough: thorough, Worker: w, Workers: workers, Random: random, RawLib: rawMode, Known: knownSigs, Procs: []int{0, 1, 2, 4}[w%4],
 				WallLimit: wall, ReplayDir: filepath.Join(st.dir, "replays"), Out: filepath.Join(st.dir, fmt.Sprintf("out-%d.json", w))}
 			wo, outp, code := runWorker(st, job)
 			mu.Lock()
@@ -652,6 +652,7 @@ func report(st *staged, prop string, cfg propCfg, tier string, seed uint64, outs
 		"distinct_schedules":         len(sched),
 		"distinct_counts_note":       "exact up to 250000 per worker process; beyond that the distinct counts are lower bounds (probe distinct_schedule_count_capped)",
 		"distinct_abstract_states":   len(states),
+		"gomaxprocs_of_workers":      "worker w runs with GOMAXPROCS = [default, 1, 2, 4][w mod 4] (the simulation itself is independent of it; library code that reads it is not)",
 		"policies":                   policies,
 		"probes":                     probes,
 		"max_steps_after_last_fault": maxAfter,
